@@ -7,6 +7,8 @@ set -euo pipefail
 VERIF=${VERIF_DIR:-/verif}
 REPO=${REPO_DIR:-/repo}
 B=$VERIF/.build
+# SIM_COV=1: a separate build tree whose carquet objects also carry gcov counters (tools/coverage.sh); never used by the checks
+if [ -n "${SIM_COV:-}" ]; then B=$VERIF/.build-cov; fi
 SIM=$VERIF/sim
 mkdir -p "$B"
 exec 9>"$B/.lock"
@@ -16,7 +18,9 @@ CC=${SIM_CC:-gcc}
 CXX=${SIM_CXX:-g++}
 SAN="-fsanitize=address -fsanitize=bounds,pointer-overflow,null -fno-sanitize-recover=all -fno-omit-frame-pointer"
 SUT_FLAGS="-std=gnu11 -O1 -g -fopenmp -DCARQUET_VERIF -DCARQUET_ARCH_X86 -DCARQUET_ENABLE_SSE -DCARQUET_ENABLE_AVX2 -DCARQUET_ENABLE_AVX512 $SAN -fsanitize-coverage=trace-pc -I$REPO/include -I$REPO/src -w"
+if [ -n "${SIM_COV:-}" ]; then SUT_FLAGS="$SUT_FLAGS --coverage"; fi
 HAR_FLAGS="-std=gnu++17 -O1 -g $SAN -I$REPO/include -I$SIM -Wall -Wextra -Wno-unused-parameter -Wno-unused-function -Wno-missing-field-initializers"
+if [ -n "${SIM_COV:-}" ]; then HAR_FLAGS="$HAR_FLAGS -DSIM_COV"; fi
 
 # ---- (a) system under test: same file list as CMakeLists.txt on x86-64
 SUT_SRCS=$(cd "$REPO" && ls src/core/*.c src/thrift/*.c src/encoding/*.c src/compression/*.c src/simd/*.c src/reader/*.c src/writer/*.c src/metadata/*.c src/util/*.c src/simd/x86/*.c | sort)
@@ -66,7 +70,7 @@ for s in fopen fclose fread fwrite fseek ftell fflush remove open close fstat mm
 OUT=$B/simrun-$H-$HH
 if [ ! -x "$OUT" ]; then
   rm -f "$B"/simrun-*
-  if ! $CXX $SAN -o "$OUT" "$HARDIR"/*.o "$SUTDIR"/*.o $WRAP /usr/lib/x86_64-linux-gnu/libzstd.a /usr/lib/x86_64-linux-gnu/libz.a -lpthread 2>"$B/link.err"; then
+  if ! $CXX $SAN ${SIM_COV:+--coverage} -o "$OUT" "$HARDIR"/*.o "$SUTDIR"/*.o $WRAP /usr/lib/x86_64-linux-gnu/libzstd.a /usr/lib/x86_64-linux-gnu/libz.a -lpthread 2>"$B/link.err"; then
     cat "$B/link.err" >&2
     echo "BUILD-FAILURE: link failed (an OpenMP construct or libc entry point the simulator does not provide?)" >&2
     exit 2
